@@ -164,6 +164,8 @@ def real_class(step):
             return "err:signal_le_pump"
         if m.startswith("Could not determine poling period"):
             return "err:impossible_period"
+        if m.startswith("Poling period must"):
+            return "err:bad_period"
         return "err:?" + m[:40]
     return "panic@" + step.get("loc", "?").rsplit(":", 1)[0]
 
